@@ -62,6 +62,8 @@ func (m *RWMutex) Lock(ctx context.Context, write bool) (func(), error) {
 				// 0: waiting for lock
 				if write {
 					m.writeWaiting--
+					// readers may have queued behind this writer: wake them to re-check
+					broadcast()
 				}
 			} else {
 				// 1: we have the lock
